@@ -2,7 +2,7 @@ import QModel.Core
 import QModel.C16
 /-!
 # C06 — composition of quantum operations (model of `compose_qoperations` and helpers in
-quara/objects/operators.py, `Povm.generate_mprocess` (mode 2) / `MProcess.to_povm`,
+quara/objects/operators.py, `Povm.generate_mprocess` (mode 2; spectral step of mode 1) / `MProcess.to_povm`,
 `truncate_and_normalize`, `StateEnsemble`)
 
 Objects are the real coefficient arrays the library stores (`n = d²`): a state is a `Vec K n`,
@@ -97,6 +97,58 @@ def forStates [Add K] [Mul K] [Zero K] [Div K] [LE K] [DecidableLE K] [Decidable
   (states, ps1.map fun p => w * p)
 
 end kernels
+
+/-! ## `Povm.generate_mprocess(mode_backaction=1)`: the spectral step (povm.py:736-754), real symmetric case -/
+section mode1
+variable {K : Type} {d : Nat}
+
+/-- `spectral_decomp[eigenval] = [P]` / `.append(P)`: a dict keyed by the eigenvalue, insertion ordered -/
+def dictSet [DecidableEq K] (dct : List (K × List (Mat K d d))) (key : K) (val : List (Mat K d d)) :
+    List (K × List (Mat K d d)) :=
+  if dct.any (fun e => e.1 = key) then dct.map fun e => if e.1 = key then (key, val) else e
+  else dct ++ [(key, val)]
+
+def dictAppend [DecidableEq K] (dct : List (K × List (Mat K d d))) (key : K) (P : Mat K d d) :
+    List (K × List (Mat K d d)) :=
+  dct.map fun e => if e.1 = key then (e.1, e.2 ++ [P]) else e
+
+/-- the loop `for eigenval, eigenvec in zip(eigenvals, eigenvecs)`: `eigenvecs` is the matrix returned by
+`np.linalg.eigh`, and iterating it yields its **rows**; `P = row rowᵀ` (`np.dot(np.array([v]).T, np.array([v]))`,
+no conjugate — the model covers real eigenvector matrices). -/
+def mode1Loop [Mul K] [DecidableEq K] :
+    List (K × Vec K d) → Option K → List (K × List (Mat K d d)) → List (K × List (Mat K d d))
+  | [], _, dct => dct
+  | (ev, row) :: rest, prev, dct =>
+    let P := outer row row
+    let dct' := if prev = some ev then dictAppend dct ev P else dictSet dct ev [P]
+    mode1Loop rest (some ev) dct'
+
+/-- rows of the eigenvector matrix, as `zip(eigenvals, eigenvecs)` pairs them with the eigenvalues -/
+def mode1Pairs (eigvals : List K) (U : Mat K d d) : List (K × Vec K d) :=
+  eigvals.zip U.toList
+
+/-- `reduce(add, Ps)` for each key -/
+def mode1Groups [Add K] [Mul K] [Zero K] [DecidableEq K] (eigvals : List K) (U : Mat K d d) :
+    List (K × Mat K d d) :=
+  (mode1Loop (mode1Pairs eigvals U) none []).map fun e =>
+    (e.1, match e.2 with
+          | [] => Mat.zero
+          | p :: ps => ps.foldl Mat.add p)
+
+/-- the POVM element that `to_povm` reads back from `hs_cb = Σ λ P ⊗ conj(P)`: `Σ λ Pᴴ P` (real: `Pᵀ P`) -/
+def mode1Effect [Add K] [Mul K] [Zero K] [DecidableEq K] (eigvals : List K) (U : Mat K d d) : Mat K d d :=
+  (mode1Groups eigvals U).foldl (fun acc e => acc.add (Mat.smul e.1 (e.2.transpose.mul e.2))) Mat.zero
+
+/-- the action on a density matrix of the generated outcome map, `ρ ↦ Σ λ P ρ Pᴴ` (real case) -/
+def mode1Apply [Add K] [Mul K] [Zero K] [DecidableEq K] (eigvals : List K) (U : Mat K d d) (rho : Mat K d d) :
+    Mat K d d :=
+  (mode1Groups eigvals U).foldl (fun acc e => acc.add (Mat.smul e.1 ((e.2.mul rho).mul e.2.transpose))) Mat.zero
+
+/-- `U diag(λ) Uᵀ`: what `eigh` promises to equal the input (columns of `U` are the eigenvectors) -/
+def eighRecon [Add K] [Mul K] [Zero K] (eigvals : Vec K d) (U : Mat K d d) : Mat K d d :=
+  Mat.ofFn fun i j => fsum d fun k => U.get i k * eigvals.get k * U.get j k
+
+end mode1
 
 /-! ## the dispatch at the executed scalar type -/
 
@@ -353,6 +405,17 @@ def handleAt (n : Nat) [NeZero n] (c : Cfg) (args : List String) : Option String
       let sts ← toVecs? (← parseList? parseRat? sts) m n
       let vs ← toVecs? (← parseList? parseRat? vs) m n
       some s!"ok {showMats (genMode2List sts vs)}"
+  | ["mode1", d, eigvals, u] => do
+      let d ← parseNat? d
+      let ev ← parseList? parseRat? eigvals
+      let U ← toMat? (← parseList? parseRat? u) d d
+      some s!"ok {showList showRat ((mode1Effect ev U).toList.flatMap (·.toList))}"
+  | ["mode1apply", d, eigvals, u, rho] => do
+      let d ← parseNat? d
+      let ev ← parseList? parseRat? eigvals
+      let U ← toMat? (← parseList? parseRat? u) d d
+      let R ← toMat? (← parseList? parseRat? rho) d d
+      some s!"ok {showList showRat ((mode1Apply ev U R).toList.flatMap (·.toList))}"
   | ["truncnorm", eps, ps] => do
       match truncNorm (← parseRat? eps) (← parseList? parseRat? ps) with
       | none => some "err nanDist"
